@@ -182,6 +182,15 @@ func (p *C12) Generate(seed uint64, run int) *Case {
 			// standard input is a redirected regular file rather than a pipe
 			add("inpath:redirect", func(st *Step) { st.Stdin.Kind = "file" })
 		}
+		if r.Chance(1, 4) {
+			// ... whose first line was already consumed by somebody else
+			add("inpath:redirect-offset", func(st *Step) {
+				hdr := []byte("# a header line that another reader has already consumed: C[1] [ ] { } - x: y\n")
+				st.Stdin.Data = append(hdr, st.Stdin.Data...)
+				st.Stdin.Kind = "file"
+				st.Stdin.Offset = len(hdr)
+			})
+		}
 		if len(b.Input) == 0 {
 			add("inpath:devnull", func(st *Step) { st.Stdin.Kind = "chardev" })
 		}
